@@ -113,7 +113,9 @@ def serve_rsync(channel: Channel) -> None:
             remove(path)
 
         if _type == "linkbase":
-            src = os.path.join(destdir, linkpoint)
+            # absolute like the link it mirrors: a relative destdir would
+            # be resolved against the directory of the link
+            src = os.path.join(os.path.abspath(destdir), linkpoint)
         else:
             assert _type == "link", _type
             src = linkpoint
